@@ -30,6 +30,16 @@ AbsDiff(T, abs) ==
     : r \in 1 .. Len(abs)}
   \cup (IF Len(abs) >= 1 /\ SymName(T, T.start) # abs[1][1] THEN {<<"start_rule", SymName(T, T.start)>>} ELSE {})
 
+TwinDiff(T, U) ==
+  (IF Len(T.prods) # Len(U.prods) THEN {<<"production_count", Len(T.prods), Len(U.prods)>>}
+   ELSE {<<"production", k - 1>> : k \in {j \in 1 .. Len(T.prods) :
+            T.prods[j].lhs # U.prods[j].lhs \/ T.prods[j].rhs # U.prods[j].rhs}})
+  \cup (IF Len(T.states) # Len(U.states) THEN {<<"state_count", Len(T.states), Len(U.states)>>}
+        ELSE {<<"state", k - 1>> : k \in {j \in 1 .. Len(T.states) :
+                 \/ T.states[j].items # U.states[j].items
+                 \/ T.states[j].actions # U.states[j].actions
+                 \/ T.states[j].gotos # U.states[j].gotos}})
+
 Verdict(d) ==
   LET T == d.t
       C == Ctx(T)
@@ -50,6 +60,12 @@ Verdict(d) ==
       wf |-> WFDefects(T, C),
       absdiff |-> IF ~ConsistentG(T) THEN {<<"built_grammar_is_inconsistent">>}
                   ELSE IF "abs" \in DOMAIN d.meta THEN AbsDiff(T, d.meta.abs) ELSE {},
+      \* a decorated text (EMPTY references, named / bool assignments) and the plain text of
+      \* the same grammar: the same productions and, state by state, the same items with the
+      \* same lookaheads, the same actions and the same gotos
+      twindiff |-> IF "twin_grammar" \notin DOMAIN d THEN {}
+                   ELSE IF "t2" \notin DOMAIN d THEN {<<"plain_text_rejected">>}
+                   ELSE TwinDiff(T, d.t2),
       epsloop |-> Cardinality(EpsLoops(T)),
       \* binding of the OPERATIONAL construction model: Automaton.Build (FIFO work list,
       \* merge test, propagation) must reproduce the dumped automaton state by state
